@@ -52,7 +52,7 @@ package signedexchange
 //@   assigns accepted(enc.w), failed(enc.w), content(enc.w), wrapped(enc.w)
 
 //@ func (*Exchange).DumpExchangeHeaders
-//@   props C08 C19
+//@   props C08 C19 C18
 //@   may_panic
 //@   requires w != nil && !failed(w)
 //@   ensures[write-failure-surfaces] failed(w) ==> result != nil
@@ -63,7 +63,7 @@ package signedexchange
 // a file is only produced when the URL, Signature and header block fit the
 // format's length fields and limits.
 //@ func (*Exchange).Write
-//@   props C02 C08 C19
+//@   props C02 C08 C19 C18
 //@   may_panic
 //@   requires w != nil && !failed(w)
 //@   requires e.Version == version.Version1b1 || e.Version == version.Version1b2 || e.Version == version.Version1b3
@@ -165,11 +165,17 @@ package signedexchange
 // byte, then "if cert-sha256 is set, a byte holding 32 followed by the 32
 // bytes of the value, otherwise a 0 byte", then 8-byte big-endian length
 // and bytes of validity-url, ... Checked at the fixed offsets below.
+// signedMsgOf(m, e, certSha256, hasCert, validityUrl, date, expires): m is the
+// byte string serializeSignedMessage returned for exactly these arguments
+// (definitional: introduced by the witness clause below, constrained by
+// nothing else).
+//@ uf signedMsgOf(bytes, *Exchange, bytes, bool, string, int64, int64) bool
 //@ func serializeSignedMessage
-//@   props C08 C01
+//@   props C08 C01 C18
 //@   may_panic
 //@   returns (msg, err)
 //@   requires e != nil && (certSha256 == nil || len(certSha256) == 32)
+//@   ensures[is-the-signed-message,witness] err == nil ==> signedMsgOf(bytes(msg), e, certSha256 == nil ? emptyBytes() : bytes(certSha256), certSha256 != nil, validityUrl, date, expires)
 //@   ensures[b2b3-prefix] err == nil && e.Version != version.Version1b1 ==> len(msg) >= 84 && (forall i int :: 0 <= i && i < 64 ==> msg[i] == 32) && msg[82] == 0
 //@   ensures[b2b3-cert-flag] err == nil && e.Version != version.Version1b1 ==> (certSha256 != nil ==> msg[83] == 32) && (certSha256 == nil ==> msg[83] == 0)
 //@   ensures[b2b3-validity-url-length-with-cert] err == nil && e.Version != version.Version1b1 && certSha256 != nil ==> len(msg) >= 124 + len(validityUrl) && msg[123] == byte(len(validityUrl))
@@ -181,3 +187,34 @@ package signedexchange
 //@   loop 1:
 //@     invariant 0 <= i && i <= 64 && spos(buf) == 0 && send(buf) == i && accepted(buf) == i && !failed(buf)
 //@     invariant forall k int :: 0 <= k && k < i ==> sdata(buf)[k] == 32
+
+// ---- verification (C01) ---------------------------------------------------------
+// The payload check: the signature's integrity parameter names the version's
+// MI scheme, the digest header is present, and the bytes handed back come out
+// of the MI decoder over exactly e.Payload with that digest (the decoder's own
+// contracts, C15, say what such bytes are).
+//@ func verifyPayload
+//@   props C01 C15
+//@   may_panic
+//@   returns (decoded, err)
+//@   requires e != nil && signature != nil
+//@   ensures[integrity-scheme] err == nil ==> (e.Version == version.Version1b1 ==> signature.Integrity == "mi-draft2" && hdrGet(e.ResponseHeaders, "MI-Draft2") != "") && (e.Version != version.Version1b1 ==> signature.Integrity == "digest/mi-sha256-03" && hdrGet(e.ResponseHeaders, "Digest") != "")
+//@   assigns nothing
+
+// One signature is "potentially valid" only if: the certificate chain parsed,
+// the time window holds, the signature's cert-sha256 equals the SHA-256 of the
+// main certificate, the signature verifies under the main certificate's
+// public key over the message built for exactly (e, that hash, the
+// signature's validity-url, date and expires), b3 has a Content-Type, and the
+// payload check passed.
+//@ func verifySignature
+//@   props C01 C09
+//@   may_panic
+//@   returns (certs, payload, err)
+//@   requires e != nil && signature != nil
+//@   ensures[chain] err == nil ==> len(certs) >= 1 && certs[0] != nil && certs[0].Cert != nil
+//@   ensures[time-window] err == nil ==> signature.Expires - signature.Date <= 604800 && signature.Date <= unixOf(verificationTime) && (unixOf(verificationTime) < signature.Expires || (unixOf(verificationTime) == signature.Expires && tnsec(verificationTime) == 0))
+//@   ensures[cert-sha256-is-main-cert] err == nil ==> len(signature.CertSha256) == 32 && bytes(signature.CertSha256) == sha256of(cat(emptyBytes(), bytes(certs[0].Cert.Raw)))
+//@   ensures[signature-over-this-exchange] err == nil ==> exists m []byte :: {bytes(m)} signedMsgOf(bytes(m), e, bytes(signature.CertSha256), true, signature.ValidityUrl, signature.Date, signature.Expires) && sigValid(certs[0].Cert.PublicKey, bytes(m), bytes(signature.Sig))
+//@   ensures[b3-content-type] err == nil && e.Version != version.Version1b1 && e.Version != version.Version1b2 ==> hdrGet(e.ResponseHeaders, "Content-Type") != ""
+//@   ensures[payload-checked] err == nil ==> (e.Version == version.Version1b1 ==> signature.Integrity == "mi-draft2") && (e.Version != version.Version1b1 ==> signature.Integrity == "digest/mi-sha256-03")
